@@ -37,7 +37,7 @@ func ruleC13R1(c *Ctx) {
 			fns = append(fns, fn)
 		}
 	}
-	c.floor("C13.R1", "functions of transform/tparsetime", len(fns), 8)
+	c.floor("C13.R1", "functions of transform/tparsetime", len(fns), 4)
 	pr := c.f6()
 	res := classifyF6(c, pr, fns)
 	nA, nB := 0, 0
@@ -58,7 +58,7 @@ func ruleC13R1(c *Ctx) {
 			c.bad("C13.R1", r.Fn, construct, r.O.In.Pos(), r.Why+": a string of some length makes this read panic (parsing is not total)")
 		}
 	}
-	c.floor("C13.R1", "index/slice expressions of transform/tparsetime", len(res), 40)
+	c.floor("C13.R1", "index/slice expressions of transform/tparsetime", len(res), 20)
 	c.note("C13.R1: %d expressions: %d compiler-proved, %d engine-proved", len(res), nA, nB)
 }
 
@@ -239,7 +239,7 @@ func ruleC13R4(c *Ctx) {
 		ok := pr.prove(fn, site, zeroT(), lenT(fn.Params[0]), -19, nil)
 		c.check(ok, "C13.R4", fn, "digit read "+canonOf(site.Value())+" is dominated by len(t) >= 19", site.Pos(), "the length test dominates the read", "a fixed-offset digit read is reachable for strings shorter than the layout")
 	}
-	c.floor("C13.R4", "fixed-offset digit reads", nReads, 6)
+	c.floor("C13.R4", "fixed-offset digit reads", nReads, 3)
 	// separators: the entry block chain compares t[4], t[7], t[10], t[13], t[16] before any digit read
 	seps := map[int64]bool{}
 	eachInstr(fn, func(in ssa.Instruction) {
